@@ -6,6 +6,7 @@ mod c06;
 mod c15;
 mod c03;
 mod c13;
+mod c11;
 
 fn main() {
     std::panic::set_hook(Box::new(|_| {}));
@@ -33,6 +34,8 @@ fn main() {
         "c03-replay" => c03::replay(rest),
         "c03-record" => c03::record(rest),
         "c13-threads" => c13::threads(rest),
+        "c11-replay" => c11::replay(rest),
+        "c11-record" => c11::record(rest),
         x => {
             eprintln!("unknown subcommand {}", x);
             std::process::exit(2);
